@@ -84,5 +84,62 @@ pub fn replay(args: &[String]) {
             };
             out.emit(&json!({"format": f, "alg": alg, "vector": v, "obs": rec}));
         }
+        // the earlier entry points (data_hashed_placeholder / sign_data_hashed_embeddable): a dense sweep of the encoded size of
+        // the exclusion list -- `extra` further ranges, `big` of them at offsets >= 65536 (5-byte CBOR integers instead of 3),
+        // and `steps` one-byte increments spread over the lengths (1, 2 or 3 byte integers)
+        let alg = &algs[0];
+        for extra in 0..=11usize {
+            for big in [0, extra / 2, extra] {
+                for steps in 0..=(2 * extra) {
+                    if extra > 0 && big > extra { continue; }
+                    let r = catch(std::panic::AssertUnwindSafe(|| -> Result<Value, c2pa::Error> {
+                        let s = signer(alg);
+                        let mut b = Builder::from_context(ctx(&Value::Null)).with_definition(simple_manifest_json("c15 legacy", fmt).to_string().as_str())?;
+                        let ph = b.data_hashed_placeholder(s.reserve_size(), fmt)?;
+                        let off = splice_offset(fmt, &src);
+                        let mut asset = Vec::with_capacity(src.len() + ph.len());
+                        asset.extend_from_slice(&src[..off]);
+                        asset.extend_from_slice(&ph);
+                        asset.extend_from_slice(&src[off..]);
+                        let mut ex = vec![HashRange::new(off as u64, ph.len() as u64)];
+                        let after = (off + ph.len()) as u64;
+                        for i in 0..extra {
+                            let start = if i < extra - big { after + 300 + 400 * i as u64 } else { 66000u64.max(after + 6000) + 400 * i as u64 };
+                            // each step lengthens one range's length field by one encoded byte: 10 -> 100 -> 300
+                            let bump = (steps + extra - 1 - i) / extra.max(1);   // steps spread over the ranges
+                            let len = match bump.min(2) { 0 => 10u64, 1 => 100, _ => 300 };
+                            ex.push(HashRange::new(start, len));
+                        }
+                        let exj: Vec<Value> = ex.iter().map(|h| json!([h.start(), h.length()])).collect();
+                        if ex.iter().any(|h| h.start() + h.length() > asset.len() as u64) { return Ok(json!({"sign": "skipped"})); }
+                        let mut dh = c2pa::assertions::DataHash::new("jumbf manifest", "sha256");
+                        dh.exclusions = Some(ex.clone());
+                        let h = c2pa::hash_stream_by_alg("sha256", &mut Cursor::new(asset.clone()), dh.exclusions.clone(), true)?;
+                        dh.set_hash(h);
+                        let signed = match b.sign_data_hashed_embeddable(s.as_ref(), &dh, fmt) {
+                            Ok(x) => x,
+                            Err(e) => return Ok(json!({"sign": format!("Err:{}", err_kind(&e)), "placeholder_len": ph.len(), "exclusions": exj})),
+                        };
+                        let mut rec = json!({"sign": "Ok", "placeholder_len": ph.len(), "signed_len": signed.len(), "exclusions": exj});
+                        if signed.len() == ph.len() {
+                            let mut patched = asset.clone();
+                            patched[off..off + signed.len()].copy_from_slice(&signed);
+                            rec["read"] = match read_bytes(ctx(&Value::Null), fmt, &patched) {
+                                Ok(r) => json!({"state": state_str(&r), "failures": failure_codes(&r)}),
+                                Err(e) => json!({"state": format!("ReadErr:{}", err_kind(&e))}),
+                            };
+                        }
+                        Ok(rec)
+                    }));
+                    let rec = match r {
+                        Ok(Ok(v)) => v,
+                        Ok(Err(e)) => json!({"sign": format!("SetupErr:{}", err_kind(&e)), "msg": format!("{e}")}),
+                        Err(p) => json!({"sign": "Panic", "msg": p}),
+                    };
+                    if rec["sign"] == "skipped" { continue; }
+                    out.emit(&json!({"format": f, "alg": alg, "vector": {"legacy": true, "extra": extra, "big": big, "steps": steps, "rounds": []}, "obs": {"rounds": [rec]}}));
+                }
+            }
+        }
     }
 }
